@@ -11,21 +11,21 @@ functions; `run`, `isInterleaving`, `threadSeq` — the abstract machine.
 namespace C20
 open Threads
 
-/-- **chunks_partition.**  For `items ≥ 1` and `threads ≥ 1` (any relation between them: dividing,
-non-dividing, `threads > items`) the loop spawns at most `threads` threads, none of them idle;
+/-- **chunks_partition.**  For every number of items (zero included) and `threads ≥ 1` (any relation
+between them: dividing, non-dividing, `threads > items`) the loop spawns at most `threads` threads, none of them idle;
 thread `t` is the `t`-th spawned, uses scratch window `t`, and hands the body exactly the index of
 the slot it writes (`base + thread_idx·chunk_size + idx` = physical position of `dst`); and the
 slots written, read thread after thread, are exactly `base, base+1, …, base+items−1` — so no item
 is skipped, none is executed twice, and no two threads share a slot or a scratch window. -/
-theorem chunks_partition (base items threads : Nat) (hi : 1 ≤ items) (ht : 1 ≤ threads) :
+theorem chunks_partition (base items threads : Nat) (ht : 1 ≤ threads) :
     ∃ qs, parLoop base items threads = .ok qs ∧
       qs.length ≤ threads ∧
       (∀ q ∈ qs, q ≠ []) ∧
       (∀ t (h : t < qs.length), ∀ w ∈ qs[t], w.thread = t ∧ w.scratch = t ∧ w.index = w.slot) ∧
       qs.flatten.map (·.slot) = List.range' base items := by
-  have hcs := divCeil_pos items threads hi ht
-  have hlen := chunks_count_le base items threads hi ht
-  refine ⟨_, parLoop_ok base items threads hi ht, ?_, ?_, ?_, ?_⟩
+  have hcs := chunkSize_pos items threads
+  have hlen := chunks_count_le base items threads ht
+  refine ⟨_, parLoop_ok base items threads ht, ?_, ?_, ?_, ?_⟩
   · rw [spawnList_length]; omega
   · intro q hq
     obtain ⟨t, h, rfl⟩ := List.getElem_of_mem hq
@@ -45,10 +45,10 @@ example : (match chunks 32 40 with | .ok qs => qs.length | _ => 0) = 32 ∧
 
 /-- corollaries in the wording of the property: every slot of `[base, base+items)` is written by
 exactly one work item (`count = 1`), nothing else is written. -/
-theorem each_item_exactly_once (base items threads : Nat) (hi : 1 ≤ items) (ht : 1 ≤ threads) :
+theorem each_item_exactly_once (base items threads : Nat) (ht : 1 ≤ threads) :
     ∃ qs, parLoop base items threads = .ok qs ∧
       ∀ j, (qs.flatten.map (·.slot)).count j = if base ≤ j ∧ j < base + items then 1 else 0 := by
-  obtain ⟨qs, h, _, _, _, hs⟩ := chunks_partition base items threads hi ht
+  obtain ⟨qs, h, _, _, _, hs⟩ := chunks_partition base items threads ht
   refine ⟨qs, h, fun j => ?_⟩
   rw [hs]
   have hnd : (List.range' base items).Nodup := List.nodup_range'
@@ -60,14 +60,15 @@ theorem each_item_exactly_once (base items threads : Nat) (hi : 1 ≤ items) (ht
 
 example : (match parLoop 5 9 4 with | .ok qs => (qs.flatten.map (·.slot)).count 13 | _ => 7) = 1 := by decide
 
-/-- **guard (items = 0).**  With no work item (`circuit.output_size() = 0`, resp. `bit_count = 0`)
-`chunk_size = 0` and `chunks_mut(0)` panics, for every thread count ≥ 1. -/
-theorem zero_items_panics (base threads : Nat) (ht : 1 ≤ threads) :
-    parLoop base 0 threads = .panic "assert" := by
+/-- **items = 0.**  With no work item (`circuit.output_size() = 0`, resp. `bit_count = 0`)
+`chunk_size = 0.div_ceil(threads).max(1) = 1`, `chunks_mut(1)` of the empty slice yields nothing: no
+thread is spawned and the call goes on to its zeroing loops, for every thread count ≥ 1. -/
+theorem zero_items_ok (base threads : Nat) (ht : 1 ≤ threads) :
+    parLoop base 0 threads = .ok [] := by
   have h : threads ≠ 0 := by omega
-  simp [parLoop, chunksMut, divCeil, h]
+  simp [parLoop, chunksMut, divCeil, h, chunksMutAux, spawnList]
 
-example : parLoop 3 0 4 = .panic "assert" := by rfl
+example : parLoop 3 0 4 = .ok [] := by rfl
 
 /-- **guard (threads = 0).** `div_ceil(0)`. -/
 theorem zero_threads_panics (base items : Nat) : parLoop base items 0 = .panic "overflow" := by
@@ -75,28 +76,17 @@ theorem zero_threads_panics (base items : Nat) : parLoop base items 0 = .panic "
 
 example : parLoop 0 32 0 = .panic "overflow" := by rfl
 
-/-- `fhe_uint_prepare_custom_multi_thread` with `bit_count = 0` panics although the request is in
-range (`bit_start + 0 ≤ BITS`) and the scratch suffices: the full statement "every (start, length)
-partition returns the single-thread result" is false of the code at `length = 0`
-(both the single- and the multi-threaded entry points go through the same loop). -/
-theorem prepare_zero_count_counterexample :
-    ¬ (∀ threads bits start count avail per, 1 ≤ threads → start + count ≤ bits → per % 64 = 0 →
-        threads * per ≤ avail → ∃ acts, execPrepare threads bits start count avail per = .ok acts) := by
-  intro h
-  obtain ⟨acts, ha⟩ := h 1 32 0 0 64 64 (by decide) (by decide) (by decide) (by decide)
-  simp [execPrepare, parLoop, chunksMut, divCeil, splitMut, splitLoop, takeAligned, Win.available, Win.alignOffset] at ha
-
-/-- **execBdd / execPrepare action tables.**  For admissible arguments with at least one work item
-the call does not panic; slot `j` of the work range is written exactly by the thread that owns it
+/-- **execBdd / execPrepare action tables.**  For admissible arguments (any number of work items, zero
+included) the call does not panic; slot `j` of the work range is written exactly by the thread that owns it
 with the result of item `j`; every other slot is zeroed (the tail loops); nothing is left
 untouched. -/
 theorem execPrepare_table_partial (threads bits start count avail per : Nat) (ht : 1 ≤ threads)
-    (hc : 1 ≤ count) (hr : start + count ≤ bits) (hs : threads * per ≤ avail) (h64 : per % 64 = 0) :
+    (hr : start + count ≤ bits) (hs : threads * per ≤ avail) (h64 : per % 64 = 0) :
     ∃ acts, execPrepare threads bits start count avail per = .ok acts ∧ acts.length = bits ∧
       ∀ j (h : j < acts.length),
         if start ≤ j ∧ j < start + count then ∃ t, t < threads ∧ acts[j] = Act.item t t j
         else acts[j] = Act.zero := by
-  obtain ⟨qs, hq, hlen, _, hmem, hslots⟩ := chunks_partition start count threads hc ht
+  obtain ⟨qs, hq, hlen, _, hmem, hslots⟩ := chunks_partition start count threads ht
   unfold execPrepare
   have h1 : ¬ (start + count > bits) := by omega
   have h2 : ¬ (avail < threads * per) := by omega
@@ -132,9 +122,11 @@ theorem execPrepare_table_partial (threads bits start count avail per : Nat) (ht
 example : execPrepare 3 8 2 5 384 128 = .ok
     [.zero, .zero, .item 0 0 2, .item 0 0 3, .item 1 1 4, .item 1 1 5, .item 2 2 6, .zero] := by rfl
 
-/- FULL STATEMENT (not proved, false of the code): the same for every `count ≥ 0` (for
-`count = 0` every slot zeroed) and every per-thread size, not only multiples of 64.
-`prepare_zero_count_counterexample` and `split_mut_counterexample` are the witnesses. -/
+/-- `bit_count = 0`: every bit zeroed, no panic -/
+example : execPrepare 2 8 3 0 128 64 = .ok (List.replicate 8 Act.zero) := by rfl
+
+/- FULL STATEMENT (not proved, false of the code): the same for every per-thread size, not only
+multiples of 64.  `split_mut_counterexample` is the witness. -/
 
 /-- **split_mut (aligned sizes).**  From a 64-aligned window, `split_mut(n, len)` with `len` a
 multiple of 64 and `n·len ≤ available` succeeds and returns the `n` consecutive, pairwise disjoint
@@ -163,13 +155,13 @@ theorem split_mut_counterexample :
   simp [splitMut, splitLoop, takeAligned, Win.available, Win.alignOffset] at hr
 
 theorem execBdd_table_partial (threads outLen outputSize inBits circIn avail per : Nat) (ht : 1 ≤ threads)
-    (hc : 1 ≤ outputSize) (hr : outputSize ≤ outLen) (hin : circIn ≤ inBits) (hs : threads * per ≤ avail)
+    (hc : 1 ≤ outLen) (hr : outputSize ≤ outLen) (hin : circIn ≤ inBits) (hs : threads * per ≤ avail)
     (h64 : per % 64 = 0) :
     ∃ acts, execBdd threads outLen outputSize inBits circIn avail per = .ok acts ∧ acts.length = outLen ∧
       ∀ j (h : j < acts.length),
         if j < outputSize then ∃ t, t < threads ∧ acts[j] = Act.item t t j
         else acts[j] = Act.zero := by
-  obtain ⟨qs, hq, hlen, _, hmem, hslots⟩ := chunks_partition 0 outputSize threads hc ht
+  obtain ⟨qs, hq, hlen, _, hmem, hslots⟩ := chunks_partition 0 outputSize threads ht
   unfold execBdd
   have h1 : ¬ (inBits < circIn) := by omega
   have h2 : ¬ (avail < threads * per) := by omega
@@ -227,25 +219,25 @@ example :
   decide
 
 /-- The queues the two loops produce have disjoint footprints, whatever the item programs are. -/
-theorem parLoop_queues_disjoint (plen : Nat → Nat) (base items threads : Nat) (hi : 1 ≤ items)
+theorem parLoop_queues_disjoint (plen : Nat → Nat) (base items threads : Nat)
     (ht : 1 ≤ threads) :
     ∃ qs, parLoop base items threads = .ok qs ∧ DisjointQ (qs.map (threadSeq plen)) :=
-  ⟨_, parLoop_ok base items threads hi ht, parLoop_disjoint plen base items threads hi ht⟩
+  ⟨_, parLoop_ok base items threads ht, parLoop_disjoint plen base items threads ht⟩
 
 example : ∃ qs, parLoop 2 5 3 = .ok qs ∧ DisjointQ (qs.map (threadSeq (fun _ => 2))) :=
-  parLoop_queues_disjoint _ 2 5 3 (by decide) (by decide)
+  parLoop_queues_disjoint _ 2 5 3 (by decide)
 
 /-- **par_outputs.**  If the output of each item is oblivious of the prior contents of its output
 slot and of its scratch window, then after *any* schedule of *any* thread count ≥ 1 every slot of
 the work range holds the item's own result and every other slot is unchanged. -/
 theorem par_outputs {V : Type} (micro : Nat → Nat → V × V → V × V) (plen : Nat → Nat)
-    (hob : Oblivious micro plen) (base items threads : Nat) (hi : 1 ≤ items) (ht : 1 ≤ threads)
+    (hob : Oblivious micro plen) (base items threads : Nat) (ht : 1 ≤ threads)
     (qs : List (List Work)) (hq : parLoop base items threads = .ok qs)
     (sched : List Ev) (hs : isInterleaving (qs.map (threadSeq plen)) sched = true) (st : St V) (j : Nat) :
     (run micro sched st).outs j =
       if base ≤ j ∧ j < base + items then (itemRun micro plen j (st.outs j, st.scr 0)).1 else st.outs j := by
-  obtain ⟨qs', hq', _, _, hmem, hslots⟩ := chunks_partition base items threads hi ht
-  obtain ⟨qs'', hq'', hd⟩ := parLoop_queues_disjoint plen base items threads hi ht
+  obtain ⟨qs', hq', _, _, hmem, hslots⟩ := chunks_partition base items threads ht
+  obtain ⟨qs'', hq'', hd⟩ := parLoop_queues_disjoint plen base items threads ht
   rw [hq] at hq' hq''
   cases hq'; cases hq''
   rw [interleave_eq_seq micro _ hd sched hs, flatten_threadSeq, run_seq_outs micro plen hob, hslots]
@@ -258,14 +250,14 @@ theorem par_outputs {V : Type} (micro : Nat → Nat → V × V → V × V) (plen
 /-- **threads_eq_single.**  Same work, two thread counts (e.g. `t₂ = 1`), two arbitrary
 schedules: identical outputs in every slot. -/
 theorem threads_eq_single {V : Type} (micro : Nat → Nat → V × V → V × V) (plen : Nat → Nat)
-    (hob : Oblivious micro plen) (base items t₁ t₂ : Nat) (hi : 1 ≤ items) (h₁ : 1 ≤ t₁) (h₂ : 1 ≤ t₂)
+    (hob : Oblivious micro plen) (base items t₁ t₂ : Nat) (h₁ : 1 ≤ t₁) (h₂ : 1 ≤ t₂)
     (qs₁ qs₂ : List (List Work)) (hq₁ : parLoop base items t₁ = .ok qs₁) (hq₂ : parLoop base items t₂ = .ok qs₂)
     (s₁ s₂ : List Ev) (hs₁ : isInterleaving (qs₁.map (threadSeq plen)) s₁ = true)
     (hs₂ : isInterleaving (qs₂.map (threadSeq plen)) s₂ = true) (st : St V) :
     (run micro s₁ st).outs = (run micro s₂ st).outs := by
   funext j
-  rw [par_outputs micro plen hob base items t₁ hi h₁ qs₁ hq₁ s₁ hs₁,
-      par_outputs micro plen hob base items t₂ hi h₂ qs₂ hq₂ s₂ hs₂]
+  rw [par_outputs micro plen hob base items t₁ h₁ qs₁ hq₁ s₁ hs₁,
+      par_outputs micro plen hob base items t₂ h₂ qs₂ hq₂ s₂ hs₂]
 
 /-- non-vacuity of `Oblivious`: a two-step item that first overwrites its scratch and output from
 the (closed-over) index and then combines them — the result ignores prior contents, the steps do
